@@ -124,6 +124,9 @@ def _rvalue(p, rv, on_event):
             return ["range", ops[0], ops[1]]
         if rv.get("ak") == "Tuple":
             return ("tuple", ops)
+        if rv.get("ak") == "Array" and ops and all(_is_int(o) for o in ops):
+            # `[7, 14, 21]` about to be iterated: the values as a tuple (immutable) and a cursor
+            return ["arriter", tuple(ops), 0]
         return UNK
     if k == "Discriminant":
         v = _read_place(p, rv["place"])
@@ -177,7 +180,7 @@ def explore(mir, on_call=None, max_paths=4000, max_steps=600):
                 args = [_operand(p, a) for a in t.get("args", [])]
                 name = t.get("resolved") or t.get("callee") or ""
                 v = UNK
-                if name.endswith("IntoIterator>::into_iter") or name.endswith("IntoIterator::into_iter"):
+                if name.endswith("IntoIterator>::into_iter") or name.endswith("IntoIterator::into_iter") or (name.endswith("::into_iter") and "IntoIterator for [T; N]" in name):
                     v = args[0] if args and isinstance(args[0], list) else UNK
                 elif "Iterator for core::ops::range::Range" in name and name.endswith("::next") or name.endswith("range::Range<i32> as core::iter::traits::iterator::Iterator>::next"):
                     r = args[0] if args else UNK
@@ -186,6 +189,15 @@ def explore(mir, on_call=None, max_paths=4000, max_steps=600):
                         if tgt[1] < tgt[2]:
                             v = ("some", tgt[1])
                             tgt[1] += 1
+                        else:
+                            v = ("none",)
+                elif "array::iter::IntoIter" in name and name.endswith("::next"):
+                    r = args[0] if args else UNK
+                    tgt = p.env.get(r[1]) if isinstance(r, tuple) and r and r[0] == "ref" else None
+                    if isinstance(tgt, list) and tgt[0] == "arriter":
+                        if tgt[2] < len(tgt[1]):
+                            v = ("some", tgt[1][tgt[2]])
+                            tgt[2] += 1
                         else:
                             v = ("none",)
                 elif on_call is not None:
